@@ -106,6 +106,39 @@ Section CellProbabilitiesGeneric.
   Proof. exact (fun cond coords idx A B => joint_spec T zero one half add sub mul div cdfv cdf1 cdfv_pointwise cond coords A B idx). Qed.
 End CellProbabilitiesGeneric.
 
+(* error branches of cumsum_biggest_until: ValueError iff the array holds a nan (any number type); IndexError iff the
+   array is empty or the densest cell alone exceeds the limit (lead L14: then nothing can be enclosed) *)
+Theorem C02_error_branches :
+  (forall (T : Type) (zero : T) (add : T -> T -> T) (leb ltb : T -> T -> bool) (isnan : T -> bool) a lim,
+     cumsum_biggest_until T zero add leb ltb isnan a lim = CbuNan <-> existsb isnan a = true) /\
+  (forall a lim, nonnegR a ->
+     (Rcbu a lim = CbuIndexError <-> a = [] \/ exists k, in_range a k /\ lim < cellp a k)).
+Proof. exact (conj (fun T zero add leb ltb isnan a lim => proj1 (cbu_error_cases T zero add leb ltb isnan a lim)) index_error_iff). Qed.
+
+(* _compute up to HDR and fm IS the selection on the cell probabilities with limit 1 - alpha: without warning the mask of
+   the selected cells and fm = prob_m / prod(deltas), so that all theorems above apply to what _compute returns;
+   with the warning the whole grid and fm = 0 *)
+Theorem C02_compute_is_selection : forall cdfv cond coords deltas alpha m pm fm,
+  nonnegR (cell_prob cdfv cond coords deltas) ->
+  (Rregion cdfv cond coords deltas alpha = (HdrOk m pm false, fm) ->
+     exists sel, Rcbu (cell_prob cdfv cond coords deltas) (1 - alpha) = CbuOk sel pm false /\
+                 m = mask_of (length (cell_prob cdfv cond coords deltas)) sel /\
+                 fm = fm_of R Rdiv pm deltas /\ ~ (sum_all (cell_prob cdfv cond coords deltas) < 1 - alpha)) /\
+  (Forall (fun d => d <> 0) deltas -> Rregion cdfv cond coords deltas alpha = (HdrOk m pm true, fm) ->
+     sum_all (cell_prob cdfv cond coords deltas) < 1 - alpha /\
+     m = map (fun _ => true) (cell_prob cdfv cond coords deltas) /\ fm = 0).
+Proof.
+  exact (fun cdfv cond coords deltas alpha m pm fm Hn =>
+           conj (region_ok cdfv cond coords deltas alpha m pm fm Hn)
+                (fun Hd => region_warned cdfv cond coords deltas alpha m pm fm Hn Hd)).
+Qed.
+
+(* a grid start + i*delta (arange in exact arithmetic) has spacing dx = delta: the hypothesis `deltas = map dx_of coords`
+   of C02_cell_probabilities holds for it *)
+Theorem C02_equidistant_grid_spacing : forall start delta n, (2 <= n)%nat ->
+  length (Rgrid start delta n) = n /\ dx_of R 0 Rminus (Rgrid start delta n) = delta.
+Proof. exact (fun start delta n H => conj (Rgrid_length start delta n) (Rgrid_spacing start delta n H)). Qed.
+
 (* the binary64 entry points run against the implementation ARE the generic model *)
 Theorem C02_float_entry_points :
   f_cbu = cumsum_biggest_until float 0%float PrimFloat.add PrimFloat.leb PrimFloat.ltb fisnan /\
@@ -137,3 +170,6 @@ Print Assumptions C02_warning_when_unreachable.
 Print Assumptions C02_cell_probabilities.
 Print Assumptions C02_joint_pdf_entries.
 Print Assumptions C02_float_entry_points.
+Print Assumptions C02_error_branches.
+Print Assumptions C02_compute_is_selection.
+Print Assumptions C02_equidistant_grid_spacing.
